@@ -1,11 +1,18 @@
 """C06 — nufft approximates the non-uniform DFT to its stated accuracy; nufft_adjoint is its exact adjoint.
 
 level: proof (partial): structure is proved about the translator-generated formulas — scalings, centre, periodicity;
-`nufft_adjoint` = `nufft`^H for the concrete 1-D and 2-D pipelines with every stage fact discharged from C05 / C09 / C07
-(only assumptions: real apodisation weights, real-valued kernel); the Toeplitz normal operator (`toeplitz_psf`,
-`NUFFT._normal_linop`): A^H A of the exact NUDFT is Toeplitz and R^H F^H diag(p) F R reproduces any Toeplitz operator
-exactly (sigpy's centred conventions).  The accuracy bound itself (and the accuracy of the computed psf) is analytic and
-only MEASURED by the search oracle.
+`nufft_adjoint` = `nufft`^H for the concrete pipelines in 1, 2 and 3 transform dimensions with a leading (flattened) batch axis
+of any length, every stage fact discharged from C05 / C09 / C07 and composed axis by axis (Props/C06Batch.lean); the weights
+`_apodize` computes are proved real (`apodWeight_real`), and the (K, wt) parametrisation of the generated weights is proved to
+cover separable real kernels such as Kaiser-Bessel in 2-D / 3-D (Props/C06Kernel.lean); the Toeplitz normal operator
+(`toeplitz_psf`, `NUFFT._normal_linop`): A^H A of the exact NUDFT is Toeplitz and R^H F^H diag(p) F R reproduces any Toeplitz
+operator exactly in 1, 2 and 3 dimensions by per-axis composition (sigpy's centred conventions, Props/C06ToeplitzNd.lean);
+the exact NUDFT reference: period, shift / modulation covariance, and the ERROR IDENTITY of the generated pipelines
+(`nufft1_eq_nudft_times_kernel`, `nufft1B_...`, `nufft2_...`, `nufft3B_eq_nudft_times_kernel`: every NUDFT term is multiplied
+by apodisation x the product over the axes of the discrete-time Fourier sums of the kernel samples, kernel as a parameter;
+`nufft1_row_error(_le)` / `row_error_phases`: the row error the oracle measures reduces to a kernel-only quantity;
+`nufft1B_per_item` / `nufft3B_per_item`: a batched transform is the same linear map on every item), Props/C06Nudft*.lean.  The accuracy bound itself (a property of Kaiser-Bessel / Beatty's beta) and the accuracy of
+the computed psf are analytic and only MEASURED by the search oracle.
 """
 import json
 import math
@@ -19,7 +26,9 @@ from harness.translate import gen as G
 
 PROPERTY = "C06"
 LEAN_MODULES = ["SigpyVerif.Props.C06", "SigpyVerif.Props.C06Nd", "SigpyVerif.Props.C06Toeplitz",
-                "SigpyVerif.Props.C06Batch", "SigpyVerif.Props.C06ToeplitzNd", "SigpyVerif.Props.C06Nudft"]
+                "SigpyVerif.Props.C06Batch", "SigpyVerif.Props.C06ToeplitzNd", "SigpyVerif.Props.C06Nudft",
+                "SigpyVerif.Props.C06Kernel", "SigpyVerif.Props.C06NudftBatch", "SigpyVerif.Props.C06Nudft2d",
+                "SigpyVerif.Props.C06Nudft3d"]
 THEOREMS = ["SigpyVerif.C06." + t for t in [
     "os_sites_agree", "oversampLen_ge", "scaleCoord_period", "nufft_periodic1", "nufft_periodic2", "nufft_periodic3",
     "nudft_periodic", "grid_centre_consistency", "crop_centre_consistency", "dc_lands_on_centre",
@@ -55,6 +64,17 @@ THEOREMS = ["SigpyVerif.C06." + t for t in [
     "ufft_resize_apply", "root_wrap", "fftRoot_zpow", "kernelArgs_spec", "kernelSum_shift", "phase_split",
     "sum_list_comm", "list_sum_factor", "nufft1_eq_nudft_times_kernel", "nufft1_error_identity", "nufft1_error_le",
     "nufft1_row_error", "nufft1_row_error_le",
+    # the (K, wt) parametrisation of the 2-D / 3-D weights covers separable REAL kernels such as Kaiser-Bessel (Props/C06Kernel.lean)
+    "decQ_encode", "val235", "natAbs_num_natCast", "sep_encoding2", "sep_encoding3", "interp2_weights_separable",
+    "interp3_weights_separable", "nufft_adjoint_is_adjoint_3d_batch_separable",
+    # batched 1-D pipeline entry by entry: the same linear map on every batch item (Props/C06NudftBatch.lean)
+    "interpLin1B_apply", "ufft_resize1B_apply", "nufft1B_eq_nudft_times_kernel", "nufft1B_per_item",
+    # the error identity of the generated 2-D pipeline, separable weights (Props/C06Nudft2d.lean)
+    "list_sum_flatMap", "list_sum_mul_sum", "list_sum2_factor", "interpLin2_apply", "resizeMatNd_padG2",
+    "ufft_resize2_apply", "nufft2_eq_nudft_times_kernel", "nufft2_error_identity", "row_error_phases",
+    # the batched 3-D pipeline entry by entry: error identity + the same map on every batch item (Props/C06Nudft3d.lean)
+    "list_sum3_factor", "interpLin3B_apply", "resizeMatNd_padG3B", "ufft_resize3B_apply",
+    "nufft3B_eq_nudft_times_kernel", "nufft3B_per_item",
 ]]
 
 # Toeplitz normal operator (search oracle): A.N(x) against A.H(A(x)) for NUFFT(..., oversamp=2, width=w, toeplitz=True).
@@ -405,7 +425,10 @@ def correspond(ctx):
     ctx.rule = ("formulas: (oversamp, N) pairs, oversamp in {1.25,1.5,2} + non-dyadic + random floats, N = 1..40(130) + random to 4000, "
                 "against the real _get_oversamp_shape/_scale_coord; apodize: random shapes 1-3 D x oversamp x width against the "
                 "formula with the model's centre and length; reified: real nufft/nufft_adjoint runs with recording wrappers "
-                "(os_shape, scaled coords, kernel/width/beta handed over, scalings via centre deltas). distinct by all parameters")
+                "(os_shape, scaled coords, kernel/width/beta handed over, scalings via centre deltas); identity: random shapes 1-3 D "
+                "x oversamp x width x 1-4 points (random sixteenths, on-grid, half-integer, out-of-range): the matrices of the real "
+                "nufft / nufft_adjoint against NUDFT x apodisation x kernel sum built from the driver's window data. "
+                "distinct by all parameters")
     bad = _formula_stream(ctx)
     ctx.oblige("correspondence:C06.formulas", "correspondence", bad == 0, "%d disagreements" % bad)
     bad = _apod_stream(ctx)
@@ -416,21 +439,38 @@ def correspond(ctx):
     ctx.oblige("correspondence:C06.identity", "correspondence", bad == 0, "%d disagreements" % bad)
     ctx.traces = ctx.evaluations
     ctx.notes.append("level: proof, PARTIAL — scalings, centre, periodicity are theorems about the generated formulas; adjointness is proved "
-                     "for the concrete 1-D / 2-D pipelines built from C05's DFT matrices, C09's resize relation and C07's generated update "
-                     "lists (nufft_adjoint_is_adjoint_1d / _2d: no stage hypothesis left); toeplitz_psf / NUFFT._normal_linop: call structure "
-                     "extracted by the translator, embedding formulas proved, A^H A Toeplitz and the circulant embedding exact "
-                     "(toeplitz_embedding_exact, centred conventions).  The 3 % / 0.3 % accuracy bound is measured by the search oracle "
+                     "for the concrete pipelines in 1 / 2 / 3 transform dimensions with a leading batch axis of any length, built from C05's DFT "
+                     "matrices (1_B (x) U_L1 (x) .. (x) U_Ld, adjointness composed axis by axis), C09's N-d resize relation on the full shapes and "
+                     "C07's generated update lists Gen.interp1/2/3, Gen.grid1/2/3 with batch_size = B (nufft_adjoint_is_adjoint_{1,2,3}d_batch, "
+                     "_3d, _3d_code: no stage hypothesis left); apodWeight_real: the weights of the _apodize formula are real; "
+                     "interp{2,3}_weights_separable: the (K, wt) parametrisation covers separable real kernels (Kaiser-Bessel) in 2-D / 3-D; "
+                     "toeplitz_psf / NUFFT._normal_linop: call structure extracted by the translator, embedding formulas proved, A^H A Toeplitz and "
+                     "the circulant embedding exact in 1, 2 and 3 dimensions by per-axis composition (toeplitz_embedding_exact(_2d/_3d), "
+                     "circDiag_kron).  Exact NUDFT: nudft_periodic_coord, nudftOn_shift, nudft_modulation; error identity of the generated 1-D "
+                     "pipeline with the kernel as a parameter (nufft1_eq_nudft_times_kernel, nufft1_error_identity, kernelSum_shift, "
+                     "nufft1_row_error, nufft1_row_error_le): the measured relative row error IS sqrt(mean_n |a_n S(kappa, n - N//2) - 1|^2); the same identity "
+                     "for the batched 1-D, the 2-D and the batched 3-D generated pipelines with the product of the per-axis kernel sums "
+                     "(nufft1B_/nufft2_/nufft3B_eq_nudft_times_kernel, separable weights: hypothesis hsep, satisfiable for any real kernels by "
+                     "sep_encoding2/3) and nufft1B_per_item / nufft3B_per_item (a batched transform acts as the same map on every item), "
+                     "so the stated accuracy reduces to a bound on Kaiser-Bessel alone.  That bound (3 % / 0.3 %) is measured by the search oracle "
                      "(per-coordinate row error of the implementation matrix against the exact NUDFT), not proved; likewise the accuracy of the "
                      "COMPUTED psf (Kaiser-Bessel nufft of a unit sample, complex64): oracle only (A.N(x) vs A.H(A(x)) at oversamp=2, width 7/8, 3e-4)")
     ctx.assumptions += [
-        "the accuracy bound (3 % / 0.3 %) is analytic and NOT proved: it is measured against the exact NUDFT by the search oracle",
-        "nufft_adjoint_is_adjoint_1d/_2d assume only: the apodisation weights are real (checked numerically in the apodize stream) and the "
-        "interpolation kernel is a real-valued function of its argument (Kaiser-Bessel: sqrt/I0 of reals); the FFT / resize / gridding stage "
+        "the accuracy bound (3 % / 0.3 %) is analytic and NOT proved: it is measured against the exact NUDFT by the search oracle; what is "
+        "proved is its reduction to the kernel-only quantity |a_n prod_d S_d(kappa_d, nu_d) - 1| (generated 1-D, batched 1-D, 2-D and batched 3-D "
+        "pipelines); the Poisson-summation (sum over aliases) form of S and the bound on S for Kaiser-Bessel are not proved",
+        "nufft_adjoint_is_adjoint_* assume only: real apodisation weights (proved for the _apodize formula: apodWeight_real; that _apodize IS that "
+        "formula is checked syntactically by the translator and numerically by the apodize stream) and interpolation weights that are a real "
+        "function of the generated rational weight (covers Kaiser-Bessel: interp{2,3}_weights_separable); the FFT / resize / gridding stage "
         "facts are imported theorems of C05 / C09 / C07 (their own models are tied to numpy / the source by those properties' checks); "
-        "3-D composes identically (Gen.interp3, triple Kronecker product) and is not written out; batch axes are the same map per item (oracle)",
-        "toeplitz_embedding_exact / toeplitz_structure are about the EXACT kernel t; that the psf computed by toeplitz_psf (approximate nufft "
-        "/ nufft_adjoint of a unit sample, complex64) is close to t is oracle-only (C06:toeplitz.normal)",
-        "float evaluation of ceil(oversamp*N): the model is evaluated at the effective rational oversamp fl(os*N)/N (identical for dyadic oversamp)",
+        "leading batch axes are modelled as ONE flattened axis of length B = prod(batch) (what interpolate / gridding do: C07 "
+        "ravel_batch_flatten; per-item action proved for the flattened axis in 1-D and 3-D: nufft1B_per_item, nufft3B_per_item); that resize / fft / "
+        "_apodize act per item on an UNflattened batch shape is oracle-only (C06:batch)",
+        "toeplitz_embedding_exact(_2d/_3d) / toeplitz_structure(_2d/_3d) are about the EXACT kernel t and one batch item; that the psf computed by "
+        "toeplitz_psf (approximate nufft / nufft_adjoint of a unit sample, complex64) is close to t is oracle-only (C06:toeplitz.normal)",
+        "float evaluation of ceil(oversamp*N): the model is evaluated at the effective rational oversamp fl(os*N)/N (identical for dyadic oversamp); "
+        "identity stream: the kernel VALUES are sigpy's own _kaiser_bessel_kernel (accuracy: C07), inputs where float rounding of the scaled "
+        "coordinate moves a window edge across an integer are skipped and counted",
     ]
 
 
